@@ -167,7 +167,11 @@ impl PageLockShard {
             #[cfg(kahflane_turdb_verif)]
             crate::verif_hooks::yield_point("pagelock.cleanup.map_lock");
             let mut map = self.locks.lock();
-            if entry.ref_count.load(Ordering::Acquire) == 0 {
+            if entry.ref_count.load(Ordering::Acquire) == 0
+                && map
+                    .get(&page_id)
+                    .is_some_and(|current| std::ptr::eq(Arc::as_ptr(current), entry))
+            {
                 map.remove(&page_id);
             }
         }
